@@ -26,6 +26,8 @@ Definition k_min_ttl_seconds := 27.  Definition k_min_ttl := 28.  Definition k_m
 Definition k_pow_difficulty := 31.  Definition k_announce_pow_difficulty := 32.  Definition k_persistent := 33.
 Definition k_enable_persistent := 34.  Definition k_wipe_passes := 35.  Definition k_wipe_passes_dash := 36.
 Definition k_key_rotation_seconds := 37.  Definition k_key_rotation_interval := 38.
+(* a setting with a three-component spelling (node.fetch.max_parallel): nested sections below a section *)
+Definition k_fetch := 39.  Definition k_fetch_max_parallel := 40.  Definition k_max_parallel := 41.
 
 (* std::map semantics: one value per key; insertion replaces *)
 Fixpoint oget (k : Z) (o : list (Z * value)) : option value :=
@@ -122,7 +124,7 @@ Definition env_overrides (env : value) : value :=
 Record options := mkOptions {
   o_control_port : option Z; o_transport_port : option Z; o_token : option (list Z); o_default_ttl : option Z;
   o_min_ttl : option Z; o_max_ttl : option Z; o_pow : option Z; o_persistent : option bool; o_wipe_passes : option Z;
-  o_rotation : option Z }.
+  o_rotation : option Z; o_fetch_parallel : option Z }.
 
 Definition get_int_any (root : value) (paths : list (list Z)) : res (option Z) :=
   fold_left (fun acc p => match acc with
@@ -165,6 +167,8 @@ Definition p_rotation := [[k_node; k_key_rotation_seconds]; [k_node; k_key_rotat
                           [k_security; k_key_rotation_seconds]; [k_security; k_key_rotation_interval]].
 
 (* one setting: keep the command line's value; else look the profile up; range check *)
+Definition p_fetch_parallel := [[k_node; k_fetch_max_parallel]; [k_node; k_fetch; k_max_parallel]; [k_fetch; k_max_parallel]].
+
 Definition fill_int (cur : option Z) (profile : value) (paths : list (list Z)) (ok : Z -> bool) : res (option Z) :=
   match cur with
   | Some _ => Ok cur
@@ -195,8 +199,9 @@ Definition apply_profile (profile : value) (o : options) : res options :=
   bind (fill_int (o_min_ttl o) profile p_min_ttl (fun v => 0 <? v)) (fun min_ttl =>
   bind (fill_int (o_max_ttl o) profile p_max_ttl (fun v => 0 <? v)) (fun max_ttl =>
   bind (fill_int (o_rotation o) profile p_rotation (fun v => 0 <? v)) (fun rotation =>
+  bind (fill_int (o_fetch_parallel o) profile p_fetch_parallel (fun v => (0 <=? v) && (v <=? 65535))) (fun fetch_parallel =>
   bind (fill_int (o_pow o) profile p_pow (fun v => (0 <=? v) && (v <=? 24))) (fun pow =>
-  Ok (mkOptions control_port transport_port token default_ttl min_ttl max_ttl pow persistent wipe_passes rotation))))))))))).
+  Ok (mkOptions control_port transport_port token default_ttl min_ttl max_ttl pow persistent wipe_passes rotation fetch_parallel)))))))))))).
 
 (* load_configuration: document, --profile, --env *)
 Definition load (doc : value) (names : list (list Z * Z)) (profile_flag env_flag : option (list Z)) (env_names : list (list Z * Z))
@@ -287,8 +292,9 @@ Definition run (input : list Z) : list Z :=
   let '(pf, l) := rd_optbytes l in let '(ef, l) := rd_optbytes l in
   let '(cp, l) := rd_optint l in let '(tp, l) := rd_optint l in let '(tok, l) := rd_optbytes l in
   let '(dt, l) := rd_optint l in let '(mn, l) := rd_optint l in let '(mx, l) := rd_optint l in
-  let '(pw, l) := rd_optint l in let '(ps, l) := rd_optint l in let '(wp, l) := rd_optint l in let '(rot, _) := rd_optint l in
-  let o := mkOptions cp tp tok dt mn mx pw (match ps with None => None | Some v => Some (negb (v =? 0)) end) wp rot in
+  let '(pw, l) := rd_optint l in let '(ps, l) := rd_optint l in let '(wp, l) := rd_optint l in let '(rot, l) := rd_optint l in
+  let '(fp, _) := rd_optint l in
+  let o := mkOptions cp tp tok dt mn mx pw (match ps with None => None | Some v => Some (negb (v =? 0)) end) wp rot fp in
   match load doc names pf ef enames o with
   | Err e => [1; e]
   | Ok r =>
@@ -296,5 +302,5 @@ Definition run (input : list Z) : list Z :=
         ++ (match o_token r with None => [0] | Some s => 1 :: o_bytes s end)
         ++ o_optint (o_default_ttl r) ++ o_optint (o_min_ttl r) ++ o_optint (o_max_ttl r) ++ o_optint (o_pow r)
         ++ (match o_persistent r with None => [0] | Some b => [1; o_bool b] end)
-        ++ o_optint (o_wipe_passes r) ++ o_optint (o_rotation r)
+        ++ o_optint (o_wipe_passes r) ++ o_optint (o_rotation r) ++ o_optint (o_fetch_parallel r)
   end.
